@@ -363,6 +363,20 @@ def eval_images(state, arg):
                 got = d.images
                 if got != exp:
                     res["fails"].append(["images_bytes", f"images has {sorted(got)} expected {sorted(exp)} or bytes differ"])
+                elif got and rng.random() < 0.6:
+                    # the caller changes the mapping it was handed (drops an entry, replaces bytes): the next request -
+                    # images again, or save_images below - still gives exactly the archive's pictures
+                    # (round-9 seed C11-images-dict-cached-and-returned)
+                    res["features"].append("returned_mapping_mutated")
+                    k0 = sorted(got)[0]
+                    if rng.random() < 0.5:
+                        del got[k0]
+                    else:
+                        got[k0] = b"changed by the caller"
+                    again = d.images
+                    if again != exp:
+                        res["fails"].append(["images_bytes", "after the caller changed the returned mapping, images no longer "
+                                             f"gives the archive's pictures: {sorted(again)} expected {sorted(exp)} or bytes differ"])
                 if folder is not None and kind != "ctor":
                     got2 = d.save_images(folder)
                     if got2 != exp:
